@@ -878,8 +878,24 @@ def search(rng, case):
 
 
 MANIFEST = {
-    "level_text": "",
-    "level_note": "",
-    "technique": "",
+    "level_text": ("Machine-checked Coq proof about the executable exit-code machine of an optimizer / evaluator step (Model/Step.v: budget "
+                   "check, evaluator call, gradient cache, filter / threshold / estimator too-few decisions, delivery of results, events), for "
+                   "every request script, fault script, threshold, filter, estimator and budget: the outcome is decided by the first request "
+                   "that does not run to completion and each documented code arises exactly in its case (C14_exit_classification, "
+                   "C14_first_stop_observation, C14_evaluator_step), delivered function results never exceed max_functions + (batch - 1) "
+                   "(C14_budget, C14_budget_serial, C14_budget_counted), the results of the failing evaluation and its FINISHED_EVALUATION are "
+                   "delivered before TOO_FEW_REALIZATIONS (C14_results_before_abort), evaluator exceptions propagate and nothing else raises "
+                   "(C14_exceptions_propagate), and the model's codes/events are members of the enums regenerated from the source "
+                   "(C14_codes_documented).  The machine is tied to the code on every run by an in-Coq correspondence over scripted real Plan "
+                   "runs with a fault-injecting evaluator (outcome, delivered results and event list compared exactly)."),
+    "level_note": ("Trusted / modelled, not verified: the optimizer back-end is a script of requests (SciPy back-ends are C07/C08); the user's "
+                   "evaluator is a fault script; realization weights are positive and equal; filters rank by a fixed order given in the case; "
+                   "transforms are exercised by the real code only (the compared facts must not depend on them).  Known finding "
+                   "C14:abort-inside-calculate (results of an evaluation aborted inside calculate are not delivered) is reported as "
+                   "KNOWN-FINDING; the model encodes the property-satisfying behaviour.  Trusted: Coq kernel + VM, translator for the enums, "
+                   "the scripted optimizer plug-in / fault-injecting evaluator / recording observer of harness/props/C14.py.  All theorems "
+                   "print 'Closed under the global context'."),
+    "technique": ("Coq proof (induction over request scripts of an executable Gallina state machine; first-stop classification, budget "
+                  "invariant) + in-Coq differential correspondence with scripted real Plan runs under injected faults"),
     "design_ref": "DESIGN.md section 4, C14",
 }
